@@ -731,6 +731,15 @@ def rule_r9(ctx) -> List[R.Inst]:
     file, line = fn_loc(M, q)
     txt = unparse(fn.node)
     rets = returns_of(fn.node)
+    # names the getter takes from the decorator's scope (computed once at decoration time) are read where they are bound
+    outer = M.funcs.get("reamber.base.Property.item_props.<locals>.gen_props")
+    if outer is not None and rets:
+        for x in ast.walk(rets[0].value):
+            if isinstance(x, ast.Name) and x.id not in ("props",):
+                ds = [st.value for st in outer.node.body if isinstance(st, ast.Assign) and len(st.targets) == 1 and isinstance(st.targets[0], ast.Name) and
+                      st.targets[0].id == x.id]
+                if len(ds) == 1:
+                    txt += " ; " + unparse(ds[0])
     own = len(rets) == 1 and "props.keys()" in unparse(rets[0].value) and "names" in unparse(rets[0].value)
     bases = "cl.__bases__" in txt and "_from_series_allowed_names()" in txt
     if own and bases:
@@ -1154,6 +1163,11 @@ def rule_r14(ctx) -> List[R.Inst]:
                 probs.append(f"the bases are visited as '{it}', not left to right as declared")
             rec = [x for x in lp.body if isinstance(x, ast.Expr) and isinstance(x.value, ast.Call) and isinstance(x.value.func, ast.Name) and
                    x.value.func.id == fn.name and len(x.value.args) == 1 and isinstance(lp.target, ast.Name) and unparse(x.value.args[0]) == lp.target.id]
+            if not rec and isinstance(lp.target, ast.Name):
+                # the descent as an argument of an unconditional statement of the loop body: found.extend(walk(b, ..)) / found += walk(b, ..)
+                rec = [x for x in lp.body if isinstance(x, (ast.Expr, ast.AugAssign, ast.Assign)) and any(
+                    isinstance(c, ast.Call) and isinstance(c.func, ast.Name) and c.func.id == fn.name and c.args and unparse(c.args[0]) == lp.target.id
+                    for c in ast.walk(x))]
             if not rec:
                 nested_rec = [x for x in ast.walk(lp) if isinstance(x, ast.Call) and isinstance(x.func, ast.Name) and x.func.id == fn.name]
                 probs.append("the descent into a base is conditional (under a test): ancestors above a base without props of its own are skipped"
